@@ -123,4 +123,25 @@ def build():
          requires=[E('wf', 'old(self).wf()'), E('headroom', 'old(self).headroom()')],
          ensures=CREATE_ENS('create_now'),
          hints=[('before_tail', None, 'proof { lemma_alloc(old(self), &*self, id as u32, true); }')])
+    u.fn(F, ['impl Allocator', 'fn kill'], ret='r', props='C01 C02',
+         requires=[E('wf', 'old(self).wf()'), E('headroom', 'old(self).headroom()'), E('legit', 'all_legit(old(self), delete@)')],
+         ensures=[E('wf', 'final(self).wf()', 'C01 C02'),
+                  E('result', 'old(self).abs().kill_stops_at(delete@, kill_pos(r, delete@)) && (r.is_err() ==> kill_pos(r, delete@) < delete@.len() && r.unwrap_err().0.entity == delete@[kill_pos(r, delete@) as int])', 'C02 C05 C20'),
+                  E('core', 'final(self).abs().core_eq(old(self).abs().kill_fold(delete@, kill_pos(r, delete@)))', 'C01 C02 C05 C20'),
+                  E('free', 'final(self).abs().free == old(self).abs().killed_free(delete@, kill_pos(r, delete@))', 'C17 C20'),
+                  E('complete', 'old(self).wf_complete() ==> final(self).wf_complete()', 'C17')],
+         closures={'|e| e.0': dict(params='e: &Entity', ret='r__: Index', ensures=[('id', 'r__ == e.0')])},
+         loops={0: dict(invariant=[E('inv', 'kill_loop_inv(old(self), &*self, delete@, index as nat)'),
+                                   E('complete', 'kill_loop_complete(old(self), &*self, delete@, index as nat)', 'C17'),
+                                   E('pre', 'old(self).wf() && old(self).headroom() && all_legit(old(self), delete@)'),
+                                   E('mid', 'mid == *self')],
+                        start='let ghost p = *self;',
+                        end='proof { lemma_kill_iter(old(self), &p, &*self, delete@, index as nat); mid = *self; }')},
+         hint_obligations=[E('free_prefix', 'the free list after a stopped batch is the old one plus the ids of the killed prefix', 'C17 C20'),
+                           E('free_all', 'the free list after a completed batch is the old one plus the ids of the whole batch', 'C17 C20')],
+         hints=[('start', None, 'broadcast use axiom_iter_seq_map_slice; let ghost mut mid: Allocator = *self; proof { lemma_kill_init(old(self), delete@); }'),
+                ('block_start', 'if !self.is_alive(', 'broadcast use axiom_iter_seq_map_slice; proof { lemma_kill_stop(old(self), &*self, delete@, index as nat); }'),
+                ('before', 'return Err', 'proof { if self.cache@.len() == p.cache@.len() + index { assert(/*@L:hint.free_prefix*/ self.cache@ =~= p.cache@ + ids(delete@.subrange(0, index as int)) /*@E*/); } lemma_kill_done(old(self), &p, &*self, delete@, index as nat); }'),
+                ('after', 'if !self.is_alive(', 'proof { lemma_kill_cur(old(self), &p, delete@, index as nat); assert(p.abs().occ(delete@[index as int].0)); assert(p.alive@.contains(delete@[index as int].0) <==> p.gid(delete@[index as int].0 as int) > 0); assert(p.raised@.contains(delete@[index as int].0) ==> p.gid(delete@[index as int].0 as int) <= 0); }'),
+                ('before_tail', None, 'proof { assert(delete@.subrange(0, delete@.len() as int) =~= delete@); if self.cache@.len() == mid.cache@.len() + delete@.len() { assert(/*@L:hint.free_all*/ self.cache@ =~= mid.cache@ + ids(delete@) /*@E*/); } lemma_kill_done(old(self), &mid, &*self, delete@, delete@.len()); }')])
     return u
